@@ -18,6 +18,7 @@ UNIT = {
     'property': 'C10',
     'rlimit': 60,
     'verus_args': ['--edition=2024'],
+    'controls': 'auto',
     'vacuity_floor': 3,
     'rename_idents': {'r#else': 'verif_else'},
     'items': [
